@@ -77,5 +77,10 @@ Fixpoint all2 {A B : Type} (f : A -> B -> bool) (x : list A) (y : list B) : bool
   | _, _ => false
   end.
 
-Definition check_v1 (c : list (list ch) * list (N * N * option (list ch))) : bool :=
-  all2 v1_line_ok (pre (fst c)) (snd c).
+(* expected None: get_numbered_lines raised IndexError *)
+Definition check_v1 (c : list (list ch) * option (list (N * N * option (list ch)))) : bool :=
+  match pre_c (fst c), snd c with
+  | Some m, Some e => all2 v1_line_ok m e
+  | None, None => true
+  | _, _ => false
+  end.
